@@ -110,7 +110,7 @@ def _temp(fi, name_node, need_pure=True):
     if v is None or isinstance(v, ast.GeneratorExp) or (need_pure and not _pure(v)):
         return None
     if fi._mutated_in_place(name_node.id):
-        return None
+        return _append_loop_comp(fi, name_node, site, v)
     use = fi.stmt(name_node)
     for m in walk_expr(v):
         if not (isinstance(m, ast.Name) and isinstance(m.ctx, ast.Load)):
@@ -123,6 +123,173 @@ def _temp(fi, name_node, need_pure=True):
             if fi.cfg.reachable(site, ms, avoiding=[use]) and fi.cfg.reachable(ms, use, avoiding=[site]):
                 return None
     return v
+
+
+def _append_loop_comp(fi, name_node, site, init):
+    """The list comprehension a list built by ONE append loop is equal to:
+
+        x = []                              x = [E for t in it if c1 if c2]
+        for t in it:
+            if c0: continue        <->      (c1 = not c0)
+            if c2:
+                x.append(E)
+
+    Conditions (all decided on the CFG / def-use chains, nothing textual): the
+    single reaching definition of the use is the empty list; the only in-place
+    mutation of the object in the whole function is that one `append`; the
+    loop body consists of nothing but `if c: continue` guard clauses and the
+    (possibly if-nested, else-less) append; the loop has no `else`, sits in the
+    same enclosing loops as the initialisation, is dominated by it and
+    dominates the use, which lies outside the loop; E, the conditions and the
+    iterable do not read x; their free names have the same reaching
+    definitions (and no in-place mutation in between) at the loop and at the
+    use.  Returns a new ListComp built from the ORIGINAL nodes, else None."""
+    x = name_node.id
+    empty = (isinstance(init, ast.List) and not init.elts) or \
+        (isinstance(init, ast.Call) and call_name(init) == 'list' and not init.args and not init.keywords)
+    if not empty:
+        return None
+    muts = fi._mutated_in_place(x)
+    if len(muts) != 1:
+        return None
+    app = muts[0]
+    if not (isinstance(app, ast.Expr) and isinstance(app.value, ast.Call) and isinstance(app.value.func, ast.Attribute) and
+            app.value.func.attr == 'append' and isinstance(app.value.func.value, ast.Name) and app.value.func.value.id == x and
+            len(app.value.args) == 1 and not app.value.keywords and not isinstance(app.value.args[0], ast.Starred)):
+        return None
+    par = fi.mod.parent
+    conds = []
+    node = app
+    p = par.get(node)
+    while isinstance(p, ast.If):
+        if p.orelse or p.body != [node]:
+            return None
+        conds.insert(0, p.test)
+        node, p = p, par.get(p)
+    loop = p
+    if not isinstance(loop, ast.For) or loop.orelse or not loop.body or loop.body[-1] is not node:
+        return None
+    pre = []
+    for s in loop.body[:-1]:
+        if isinstance(s, ast.If) and not s.orelse and len(s.body) == 1 and isinstance(s.body[0], ast.Continue):
+            pre.append(norm_test(ast.copy_location(ast.UnaryOp(op=ast.Not(), operand=s.test), s.test)))
+        elif isinstance(s, ast.Pass) or (isinstance(s, ast.Expr) and isinstance(s.value, ast.Constant)):
+            continue
+        else:
+            return None
+    conds = pre + conds
+
+    def loops_around(n):
+        out = []
+        n = par.get(n)
+        while n is not None and not isinstance(n, (ast.FunctionDef, ast.AsyncFunctionDef)):
+            if isinstance(n, (ast.For, ast.While)):
+                out.append(n)
+            n = par.get(n)
+        return out
+    use = fi.stmt(name_node)
+    if loops_around(loop) != loops_around(site) or loop in loops_around(use) or use is loop:
+        return None
+    if not (fi.cfg.dominates(site, loop) and fi.cfg.dominates(loop, use)):
+        return None
+    E = app.value.args[0]
+    bound = set(target_names(loop.target))
+    for part in [E, loop.iter] + conds:
+        if x in names_loaded(part):
+            return None
+    for part in [loop.iter] + conds + [E]:
+        for m in walk_expr(part):
+            if not (isinstance(m, ast.Name) and isinstance(m.ctx, ast.Load)) or m.id in bound:
+                continue
+            if fi.rd.defs_at(loop, m.id) != fi.rd.defs_at(use, m.id):
+                return None
+            for ms in fi._mutated_in_place(m.id):
+                if fi.cfg.reachable(loop, ms, avoiding=[use]) and fi.cfg.reachable(ms, use, avoiding=[loop]):
+                    return None
+    comp = ast.ListComp(elt=E, generators=[ast.comprehension(target=loop.target, iter=loop.iter, ifs=conds, is_async=0)])
+    return ast.copy_location(comp, loop)
+
+
+# functions the rules of this file name in their patterns: calls to them are roles, never inlined
+_ANCHOR_FUNCS = {'_tonumpyarray', 'sound_trajectory', 'shared_array_like_trj', '_load_to_position', '_init'}
+
+
+def _single_return_expr(h):
+    """The expression of a helper whose body is (a docstring and) one
+    `return <expr>`; None for anything else (decorated, star-args, nested
+    scopes inside the expression)."""
+    if not isinstance(h, ast.FunctionDef) or h.decorator_list or h.args.vararg or h.args.kwarg or h.args.posonlyargs:
+        return None
+    body = [s for s in h.body if not (isinstance(s, ast.Expr) and isinstance(s.value, ast.Constant))]
+    if len(body) != 1 or not isinstance(body[0], ast.Return) or body[0].value is None:
+        return None
+    e = body[0].value
+    if any(isinstance(n, _COMPS + (ast.Lambda,)) for n in ast.walk(e)) or not _pure(e):
+        return None
+    return e
+
+
+def inline_pure_calls(fi, tree, depth=3):
+    """Expression-level inlining: a call `h(a, b)` of a module-level function
+    of the same module whose body is one `return <pure expression of its
+    parameters and module globals>` is replaced by that expression with the
+    arguments substituted (a value, not an effect: duplicating an argument
+    changes nothing for the comparison).  Refused when the callee name or a
+    global the expression reads is rebound inside the caller, for star
+    arguments, unknown keywords and missing arguments.  The front end inlines
+    such helpers at statement level only - not inside comprehensions."""
+    mod = fi.mod
+    local = getattr(fi, '_c15_stores', None)
+    if local is None:
+        local = {n.id for n in ast.walk(fi.fn) if isinstance(n, ast.Name) and isinstance(n.ctx, (ast.Store, ast.Del))} | set(params(fi.fn))
+        fi._c15_stores = local
+
+    class R(ast.NodeTransformer):
+        def visit_Call(self, node):
+            self.generic_visit(node)
+            f = node.func
+            if not (isinstance(f, ast.Name) and f.id not in local and f.id in mod.functions) or f.id in _ANCHOR_FUNCS:
+                return node
+            h = mod.functions[f.id]
+            if mod.parent.get(h) is not mod.tree:
+                return node
+            e = _single_return_expr(h)
+            if e is None:
+                return node
+            a = h.args
+            names = [x.arg for x in a.args]
+            env = {}
+            if any(isinstance(x, ast.Starred) for x in node.args) or len(node.args) > len(names):
+                return node
+            for nm, x in zip(names, node.args):
+                env[nm] = x
+            for k in node.keywords:
+                if k.arg is None or k.arg in env or k.arg not in names + [x.arg for x in a.kwonlyargs]:
+                    return node
+                env[k.arg] = k.value
+            for nm, d in zip(names[len(names) - len(a.defaults):], a.defaults):
+                env.setdefault(nm, d)
+            for x, d in zip(a.kwonlyargs, a.kw_defaults):
+                if d is not None:
+                    env.setdefault(x.arg, d)
+            allp = set(names) | {x.arg for x in a.kwonlyargs}
+            if set(env) != allp:
+                return node
+            if (names_loaded(e) - allp) & local:
+                return node                 # a global of the helper is shadowed in the caller
+
+            class S(ast.NodeTransformer):
+                def visit_Name(self, n):
+                    if isinstance(n.ctx, ast.Load) and n.id in env:
+                        return copy.deepcopy(env[n.id])
+                    return n
+            return ast.copy_location(S().visit(copy.deepcopy(e)), node)
+    for _ in range(depth):
+        before = ast.dump(tree)
+        tree = R().visit(tree)
+        if ast.dump(tree) == before:
+            break
+    return tree
 
 
 def xexpand(fi, expr, stop=(), depth=8):
@@ -251,6 +418,8 @@ def X(fi, e, stop=(), lenify=False, expand=True):
     """Canonical tree of an expression: temporaries expanded, library calls
     in keyword form, front-end canonical spellings."""
     t = xexpand(fi, e, stop=stop) if expand else copy.deepcopy(e)
+    if expand:
+        t = inline_pure_calls(fi, t)
     t = _KW(lenify).visit(t)
     ast.fix_missing_locations(t)
     return canon(t)
@@ -402,7 +571,16 @@ CEIL_FORMS = ['(_N + _S - 1) // _S', '(_N - 1 + _S) // _S', '(_N + (_S - 1)) // 
 def ceil_div(e, stride, scope):
     """classify `e` (canonical tree) as ceil(<n> / stride): verdict as in
     match.classify; on a match the bindings hold '_N'."""
-    return classify(e, CEIL_FORMS, binds={'_S': ast.Name(id=stride, ctx=ast.Load())}, scope=set(scope) | {stride})
+    binds = {'_S': ast.Name(id=stride, ctx=ast.Load())}
+    v = classify(e, CEIL_FORMS, binds=binds, scope=set(scope) | {stride})
+    if v[0] != 'match' and isinstance(e, ast.Call) and len(e.args) == 1 and not e.keywords and \
+            (call_name(e) or '') in ('int', 'np.int64', 'np.intp', 'np.int_', 'operator.index'):
+        # an integer conversion of an integer is the same NUMBER (which kind of integer object it is
+        # matters to one consumer only: see _lengths_element_type)
+        v2 = classify(e.args[0], CEIL_FORMS, binds=dict(binds), scope=set(scope) | {stride})
+        if v2[0] == 'match':
+            return v2
+    return v
 
 
 def single_comp(e):
@@ -674,6 +852,11 @@ def d_load(ck, mod):
     SH = None
     lv = resolve(fi, LEN)
     lsite = fi.stmt(lv) if lv is not LEN else ret
+    as_array = None
+    if isinstance(lv, ast.Call) and call_name(lv) in _TO_NDARRAY and lv.args and not isinstance(lv.args[0], ast.Starred):
+        inner = resolve(fi, lv.args[0])
+        if single_comp(inner) is not None:          # np.array([...]): the same numbers, held in an ndarray
+            as_array, lv = call_name(lv), inner
     sc = single_comp(lv)
     if sc is None:
         ck.missing('C15.D2.stride-lengths', 'lengths of ra.load are not a list comprehension: %s' % u(lv)[:120])
@@ -695,6 +878,8 @@ def d_load(ck, mod):
         ck.decide(v, 'C15.D2.stride-lengths', mod, lsite, F, u(lsite)[:200], 'row lengths = ceil(rows / stride)',
                   'with a stride the row lengths must be ceil(shape[0] / stride): floor division loses the '
                   'last partial step, the unstrided length overstates it, and the lengths no longer partition the data')
+        if v[0] == 'match' and n_ok:
+            _lengths_element_type(ck, mod, fi, lsite, X(fi, elt), tgt, n_ok, as_array)
         if ifs:
             ck.bad('C15.D3.same-keys', mod, lsite, F, u(lsite)[:200], 'the lengths comprehension filters its sequence: lengths and rows are no longer aligned')
         if n_ok == 'key':
@@ -895,6 +1080,133 @@ def d_load(ck, mod):
             continue
         if strided(resolve(fi, x.value)):
             ck.ok('C15.D2.stride-data', mod, x, u(x.value), 'legacy paths apply the stride')
+
+
+_TO_NDARRAY = ('np.array', 'np.asarray', 'np.asanyarray', 'numpy.array', 'numpy.asarray')
+_PY_SCALAR_FUNCS = {'int', 'len', 'round', 'bool', 'float', 'abs', 'divmod', 'math.ceil', 'math.floor', 'math.trunc', 'operator.index'}
+_NP_SCALAR_FUNCS = {'np.ceil', 'np.floor', 'np.int64', 'np.int32', 'np.intp', 'np.int_', 'np.uint64', 'np.floor_divide', 'np.add',
+                    'np.subtract', 'np.true_divide', 'np.divide', 'np.rint', 'np.trunc'}
+
+
+def scalar_kind(e, is_np_leaf):
+    """Which kind of scalar object an arithmetic expression evaluates to:
+    'np' (a numpy scalar: any arithmetic with a numpy scalar operand gives
+    one, comparisons give np.bool_), 'py' (a plain Python int / float / bool:
+    literals, int(), len(), math.ceil(), round(), arithmetic of such), or
+    None (unknown: a parameter, a call the table does not list).
+    `is_np_leaf(node)` tells which leaves are known numpy scalars."""
+    if is_np_leaf(e):
+        return 'np'
+    if isinstance(e, ast.Constant):
+        return 'py' if isinstance(e.value, (int, float, bool)) else None
+    if isinstance(e, ast.BinOp):
+        a, b = scalar_kind(e.left, is_np_leaf), scalar_kind(e.right, is_np_leaf)
+        if 'np' in (a, b):
+            return 'np'
+        return 'py' if a == b == 'py' else None
+    if isinstance(e, ast.UnaryOp):
+        if isinstance(e.op, ast.Not):
+            return 'py'
+        return scalar_kind(e.operand, is_np_leaf)
+    if isinstance(e, ast.Compare) and len(e.ops) == 1 and not isinstance(e.ops[0], (ast.In, ast.NotIn, ast.Is, ast.IsNot)):
+        a, b = scalar_kind(e.left, is_np_leaf), scalar_kind(e.comparators[0], is_np_leaf)
+        if 'np' in (a, b):
+            return 'np'
+        return 'py' if a == b == 'py' else None
+    if isinstance(e, ast.IfExp):
+        a, b = scalar_kind(e.body, is_np_leaf), scalar_kind(e.orelse, is_np_leaf)
+        return a if a == b else None
+    if isinstance(e, ast.Call):
+        cn = call_name(e) or ''
+        if cn in _PY_SCALAR_FUNCS:
+            return 'py'
+        if cn in _NP_SCALAR_FUNCS or cn.replace('numpy.', 'np.') in _NP_SCALAR_FUNCS:
+            return 'np'
+    return None
+
+
+def _ctor_compares_raw_lengths(mod):
+    """RaggedArray.__init__ decides between the rectangular row view (typed
+    block) and the partitioned one (object array) by an equality test between
+    its `lengths` argument and the first entry of it.  Returns (test node,
+    True) when that test reads the argument AS GIVEN (some reaching definition
+    of the compared name is the parameter itself, not an ndarray conversion),
+    (test node, False) when every reaching definition is np.asarray/np.array
+    of it, (None, None) when the constructor has no such test."""
+    fn = mod.functions.get('RaggedArray.__init__')
+    if fn is None:
+        return None, None
+    ps = params(fn)
+    L = 'lengths' if 'lengths' in ps else (ps[2] if len(ps) > 2 else None)
+    if L is None:
+        return None, None
+    fi = finfo(mod, fn)
+    for n in walk_local(fn):
+        if not (isinstance(n, ast.Compare) and len(n.ops) == 1 and isinstance(n.ops[0], (ast.Eq, ast.NotEq))):
+            continue
+        a, b = n.left, n.comparators[0]
+        for whole, first in ((a, b), (b, a)):
+            if isinstance(whole, ast.Name) and isinstance(first, ast.Subscript) and isinstance(first.value, ast.Name) and \
+                    first.value.id == whole.id and const_value(first.slice, None) == 0:
+                try:
+                    defs = fi.defs_of_use(whole)
+                except Exception:
+                    return n, True
+                if whole.id != L and not any(L in names_loaded(fi.def_value(d, whole.id)) for d in defs
+                                             if isinstance(d, ast.AST) and fi.def_value(d, whole.id) is not None):
+                    continue
+                raw = False
+                for d in defs:
+                    v = fi.def_value(d, whole.id) if isinstance(d, ast.AST) else None
+                    if not (isinstance(v, ast.Call) and call_name(v) in _TO_NDARRAY):
+                        raw = True
+                return n, raw
+    return None, None
+
+
+def _lengths_element_type(ck, mod, fi, lsite, elt, tgt, n_ok, as_array):
+    """The KIND of number the row lengths are matters to the constructor the
+    loaded data are wrapped in: `lengths == lengths[0]` on a plain list is
+    elementwise only when lengths[0] is a numpy scalar (numpy's reflected
+    comparison); for a list of Python ints it is `list == int` -> False, the
+    equal-length case falls through to the object-array row view and rows
+    (and row selections) of the loaded array come back with dtype object
+    instead of the stored element type.  Entries of a PyTables node's
+    `.shape` are numpy integers (tables.utils.SizeType = np.int64); integer
+    arithmetic keeps that, math.ceil / int / len give Python ints."""
+    rule = 'C15.D2.stride-lengths.element-type'
+    F = 'load'
+    what = 'kind of number of the row lengths handed to RaggedArray'
+    test, raw = _ctor_compares_raw_lengths(mod)
+    if test is None:
+        ck.ok(rule, mod, lsite, what, 'RaggedArray.__init__ has no equal-lengths test on its lengths argument')
+        return
+    if not raw:
+        ck.ok(rule, mod, lsite, what, 'RaggedArray.__init__ converts lengths to an ndarray before its equal-lengths test')
+        return
+    if as_array is not None:
+        ck.ok(rule, mod, lsite, what, 'the lengths are handed over as an ndarray (%s)' % as_array)
+        return
+    t = tgt.id if isinstance(tgt, ast.Name) else None
+
+    def np_leaf(e):
+        if n_ok == 'shape' and t is not None and isinstance(e, ast.Subscript) and isinstance(e.value, ast.Name) and e.value.id == t \
+                and isinstance(const_value(e.slice, None), int):
+            return True                     # an entry of <node>.shape
+        return match("_H.get_node(where='/', name=_K).shape[_I]", e) is not None
+    k = scalar_kind(elt, np_leaf)
+    if k == 'np':
+        ck.ok(rule, mod, lsite, what, 'numpy integers (integer arithmetic on an entry of <node>.shape): `lengths == lengths[0]` in the constructor is elementwise')
+    elif k == 'py':
+        ck.bad(rule, mod, lsite, F, what,
+               'the row lengths `%s` are plain Python ints, handed to RaggedArray as a list.  RaggedArray.__init__ (%s:%s) chooses the typed '
+               'rectangular row view by `%s` on the argument as given: list == int is a single False, so whenever all (strided) rows have the '
+               'same length the rows are rebuilt as an object array - b[i] and every row selection of the loaded array come back with dtype '
+               'object instead of the stored element type.  Keep the lengths numpy integers (integer arithmetic on shape[0]: '
+               '(shape[0] + stride - 1) // stride) or hand them over as an ndarray' % (u(elt)[:80], mod.rel, getattr(test, 'lineno', '?'), u(test)))
+    else:
+        ck.missing(rule, 'whether the row lengths `%s` of ra.load are numpy integers or Python ints (RaggedArray.__init__ compares '
+                   '`%s` on the list as given)' % (u(elt)[:80], u(test)))
 
 
 def _quantified_mismatch(test, fi=None):
@@ -1692,6 +2004,95 @@ def d_stride_every_path(ck):
     ck.floor('C15.D2.stride-data.every-path', n, 5, 'returns of loaded data in loaders with a stride parameter')
 
 
+_FILE_READS = {'md.open', 'md.load', 'md.load_frame', 'md.iterload', 'tables.open_file', 'np.load', 'numpy.load', 'open', 'h5py.File',
+               'np.loadtxt', 'np.fromfile', 'np.memmap', 'io.open', 'pickle.load'}
+_MEMO_DECORATORS = {'lru_cache', 'cache', 'cached', 'memoize', 'memoized', 'memoise', 'memoised', 'cachedmethod', 'cached_property'}
+_TRANSPARENT_DECORATORS = {'wraps', 'staticmethod', 'classmethod', 'deprecated', 'timed'}
+_DICT_MAKERS = {'dict', 'OrderedDict', 'collections.OrderedDict', 'defaultdict', 'collections.defaultdict', 'WeakValueDictionary',
+                'weakref.WeakValueDictionary'}
+
+
+def d_fresh_reads(ck):
+    """The round trip is stated about what is in the file WHEN it is loaded:
+    the value of every loader / sounder here is a function of its arguments
+    AND of the current content of the files they name.  A memoised result
+    (functools.lru_cache / cache, a memoising decorator, a module-level
+    dictionary filled and answered from by the function) is keyed on the
+    arguments only: a path whose file was rewritten, extended or replaced
+    since the first call is answered with the old length / data - and pool
+    workers forked later inherit the stale table, so the lengths that
+    position the windows of load_as_concatenated no longer describe the files
+    that are loaded.  Decided per function that (directly, or through a
+    function of this list) reads a file."""
+    rule = 'C15.D3.fresh-read'
+    todo = [(RA, 'load'), (LO, 'sound_trajectory'), (LO, 'load_as_concatenated'), (LO, '_load_to_position'),
+            (IO, 'load_h5_as_striped'), (IO, 'load_npy_as_striped')]
+    readers = {q for _, q in todo}
+    n = 0
+    for rel, q in todo:
+        mod = ck.repo.mod(rel)
+        fn = mod.functions.get(q)
+        if fn is None:
+            ck.missing(rule, 'function %s in %s' % (q, rel))
+            continue
+        reads = sorted({call_name(c) or tail(c) for c in calls_in(fn)
+                        if (call_name(c) or '') in _FILE_READS or (tail(c) in readers and tail(c) != q) or tail(c) in ('open_file', 'get_node')})
+        if not reads:
+            ck.missing(rule, 'the file access of %s (%s): no call that opens or reads a file found' % (q, rel))
+            continue
+        n += 1
+        what = 'result of %s is computed from the file on every call' % q
+        bad = unknown = None
+        for d in fn.decorator_list:
+            core = d.func if isinstance(d, ast.Call) else d
+            name = core.attr if isinstance(core, ast.Attribute) else core.id if isinstance(core, ast.Name) else None
+            if name in _MEMO_DECORATORS or (name == 'cache' and isinstance(core, ast.Attribute)):
+                bad = d
+            elif name not in _TRANSPARENT_DECORATORS:
+                unknown = d
+        # a hand-written table: a module-level dictionary the function stores into and answers from
+        tables_ = set()
+        for st in mod.tree.body:
+            if isinstance(st, (ast.Assign, ast.AnnAssign)) and st.value is not None:
+                v = st.value
+                if (isinstance(v, ast.Dict) and not v.keys) or (isinstance(v, ast.Call) and (call_name(v) or '') in _DICT_MAKERS):
+                    tables_ |= set(target_names(st.targets[0] if isinstance(st, ast.Assign) else st.target))
+        shadow = {x.id for x in ast.walk(fn) if isinstance(x, ast.Name) and isinstance(x.ctx, ast.Store)} | set(params(fn))
+        shadow -= {nm for g in ast.walk(fn) if isinstance(g, ast.Global) for nm in g.names}
+        tables_ -= shadow
+        memo = None
+        for M in sorted(tables_):
+            stored = any(isinstance(t, ast.Subscript) and isinstance(t.value, ast.Name) and t.value.id == M for _, t in subscript_stores(fn)) or \
+                any(isinstance(c.func, ast.Attribute) and c.func.attr in ('setdefault', 'update', '__setitem__') and
+                    isinstance(c.func.value, ast.Name) and c.func.value.id == M for c in calls_in(fn))
+            fi = finfo(mod, fn)
+            answered = False
+            for r in returns_of(fn):
+                if r.value is None:
+                    continue
+                for x in ast.walk(xexpand(fi, r.value)):
+                    if isinstance(x, ast.Subscript) and isinstance(x.value, ast.Name) and x.value.id == M and isinstance(x.ctx, ast.Load):
+                        answered = True
+                    if isinstance(x, ast.Call) and isinstance(x.func, ast.Attribute) and x.func.attr in ('get', 'setdefault', 'pop') and \
+                            isinstance(x.func.value, ast.Name) and x.func.value.id == M:
+                        answered = True
+            if stored and answered:
+                memo = M
+        why = ('%s reads the file (%s) but its result is remembered per argument tuple (%%s): the key does not contain the content of the '
+               'file, so a path whose file changed since it was first seen (a running / extended / restarted simulation, a re-used output '
+               'name) is answered with the old value; pool workers forked later inherit the table.  Sounded lengths then no longer '
+               'describe the files that are loaded: wrong lengths and write offsets, overlapping or zero-filled windows' % (q, ', '.join(reads)))
+        if bad is not None:
+            ck.bad(rule, mod, fn, q, what, why % ('decorator @%s' % u(bad)))
+        elif memo is not None:
+            ck.bad(rule, mod, fn, q, what, why % ('module-level table `%s` that the function fills and answers from' % memo))
+        elif unknown is not None:
+            ck.missing(rule, 'whether the decorator @%s of %s (%s) keeps results between calls' % (u(unknown)[:60], q, rel))
+        else:
+            ck.ok(rule, mod, fn, what, 'no memoising decorator, no module-level result table (reads: %s)' % ', '.join(reads))
+    ck.floor(rule, n, 5, 'loaders / sounders that read a file')
+
+
 def check(ck):
     mod = ck.repo.mod(RA)
     _part(ck, 'ra.save', d1_keys, mod)
@@ -1703,4 +2104,5 @@ def check(ck):
     _part(ck, 'load_as_concatenated', d_concat, lo)
     _part(ck, 'striped loaders', d_striped)
     _part(ck, 'stride honoured on every path', d_stride_every_path)
+    _part(ck, 'loaders read the file on every call', d_fresh_reads)
     return EXPLANATION
